@@ -76,9 +76,11 @@ Proof.
 Qed.
 
 (* ... a string prefix is not enough: /x/dae.d extends the text of /x/dae and is not inside it *)
+Definition C17_sample_dir : path := comps (Bs "/x/dae").
+Definition C17_sample_sibling_file : path := comps (Bs "/x/dae.d/a.dae").
 Lemma C17_string_prefix_not_enough_proof :
-  let d := comps (Bs "/x/dae") in
-  let f := comps (Bs "/x/dae.d/a.dae") in
+  let d := C17_sample_dir in
+  let f := C17_sample_sibling_file in
   firstn (List.length (render d)) (render (dir_of f)) = render d /\ inside d f = false.
 Proof. split; vm_compute; reflexivity. Qed.
 
